@@ -16,6 +16,7 @@ WIDTH = {"i8": 8, "i16": 16, "i32": 32, "i64": 64, "i128": 128, "u8": 8, "u16": 
 BITWISE = ["u8", "u16", "u32", "u64", "u128"]
 BINSYM = {"add": "+", "sub": "-", "mul": "*", "div": "/", "mod": "%", "and": "&", "or": "|", "xor": "^",
           "shl": "<<", "shr": ">>"}
+ARITH_LEVEL = {"add": 1, "sub": 1, "mul": 2, "div": 2, "mod": 2}
 CMPSYM = {"eq": "==", "ne": "!=", "lt": "<", "le": "<=", "gt": ">", "ge": ">="}
 
 
@@ -133,6 +134,9 @@ class Layout:
         self.rng = rng
         self.plain = plain
         self.indent_unit = "\t" if plain else rng.pick(["\t", "    ", "  ", "\t"])
+        # print arithmetic with only the parentheses the grammar needs (`a / b * c - d`): precedence and associativity of
+        # the real parser then decide the value
+        self.minimal = (not plain) and rng.chance(1, 2)
 
     def chance(self, a, b):
         return (not self.plain) and self.rng.chance(a, b)
@@ -167,6 +171,17 @@ def src_expr(e, lay, top=False):
     elif k == 'mem':
         s = "%s.%s" % (e[1], e[3])
     elif k == 'bin':
+        op = e[2]
+        if getattr(lay, "minimal", False) and op in ARITH_LEVEL:
+            # only the parentheses the grammar needs: `+ -` and `* / %` chains associate to the left, `* / %` bind tighter
+            def operand(c, right):
+                if c[0] == 'bin' and c[2] in ARITH_LEVEL:
+                    need = ARITH_LEVEL[c[2]] < ARITH_LEVEL[op] or (right and ARITH_LEVEL[c[2]] == ARITH_LEVEL[op])
+                    inner = src_expr(c, lay, True)
+                    return "(" + inner + ")" if need else inner
+                return src_expr(c, lay)
+            s = "%s %s %s" % (operand(e[3], False), BINSYM[op], operand(e[4], True))
+            return s if top else "(" + s + ")"
         s = "%s %s %s" % (src_expr(e[3], lay), BINSYM[e[2]], src_expr(e[4], lay))
         return s if top and not lay.chance(1, 5) else "(" + s + ")"
     elif k == 'cmp':
